@@ -25,7 +25,7 @@ ACC = 'self._config.cZeroFindingAccuracy'
 AIM = '(math.sin(self.look_angle) * (raw(distance) / 12))'
 RNG = '(math.cos(self.look_angle) * (raw(distance) / 12))'
 contract(f'{TC}::TrajectoryCalc.zero_angle', props=('C02', 'C10'),
-         params=dict(self=Built(tc.TrajectoryCalc, config_shape(cZeroFindingAccuracy=Real(lo=0, lo_open=True))),
+         params=dict(self=Built(tc.TrajectoryCalc, config_shape(cZeroFindingAccuracy=Real(lo=0, lo_open=True)), used_=True),
                      shot_info=SHOT, distance=QDist(Unit.Yard, value=Real(lo=1, hi=5000))),
          requires=TABLE_OK,
          loops={0: LoopContract(invariants=[
@@ -56,7 +56,7 @@ contract(f'{TC}::TrajectoryCalc.zero_angle', props=('C02', 'C10'),
               'same_object(shot_info, caller_shot_info) and maximum_range == caller_zero_distance and filter_flags == 0')]})
 
 contract(f'{TC}::TrajectoryCalc.trajectory', props=('C10', 'C03', 'C11'),
-         params=dict(self=Built(tc.TrajectoryCalc, config_shape()), shot_info=SHOT,
+         params=dict(self=Built(tc.TrajectoryCalc, config_shape(), used_=True), shot_info=SHOT,
                      max_range=QDist(Unit.Yard, value=Real(lo=0, hi=5000)), dist_step=QDist(Unit.Yard, value=Real(lo=0, hi=5000)),
                      extra_data=Enum(False, True), time_step=Real(lo=0)),
          requires=TABLE_OK,
@@ -77,7 +77,7 @@ from .lookup import ROW  # noqa: E402
 REGISTRY[f'{TC}::TrajectoryCalc.trajectory'].result_shape = ListOf(ROW, minlen=1).alternatives()[0]
 
 # ------------------------------------------------------------------------------------------ Calculator
-CALCULATOR = Obj(I.Calculator, _config=Const(None), _calc=Built(tc.TrajectoryCalc, config_shape()))
+CALCULATOR = Obj(I.Calculator, _config=Const(None), _calc=Built(tc.TrajectoryCalc, config_shape(), used_=True))
 SHOT2 = shot_shape(winds=ListOf(WINDF, frozen=True, minlen=1))
 TABLE_OK2 = [('table-strictly-ascending', ASC.format(t='shot.ammo.dm.drag_table'))]
 
